@@ -543,11 +543,17 @@ pub async fn run_case(c: &Case) -> Result<(bool, serde_json::Value), Failure> {
         }));
     }
     let mut fresh_results = vec![];
-    for round in 0..c.fresh_rounds {
+    // one blocked listener is a verdict: no need to wait out the bound for every further probe
+    let mut blocked = false;
+    'rounds: for round in 0..c.fresh_rounds {
         for l in 0..NL {
             let t = Instant::now();
             let r = fresh_tunnel(&fx, l, bound).await;
+            blocked |= r.is_err();
             fresh_results.push((l, round, r, t.elapsed()));
+            if blocked {
+                break 'rounds;
+            }
         }
     }
     let mut api_results = vec![];
@@ -556,8 +562,12 @@ pub async fn run_case(c: &Case) -> Result<(bool, serde_json::Value), Failure> {
     }
     // once more, after the concurrent API calls were issued
     for l in 0..NL {
+        if blocked {
+            break;
+        }
         let t = Instant::now();
         let r = fresh_tunnel(&fx, l, bound).await;
+        blocked |= r.is_err();
         fresh_results.push((l, 99, r, t.elapsed()));
     }
     let shape = if c.stalls.is_empty() && c.blocked_tunnels == 0 {
